@@ -145,6 +145,24 @@ def _direct_defs(body):
     return out
 
 
+class IfSwapper(ast.NodeTransformer):
+    """`if c: A else: B`  ->  `if not c: B else: A`  (only plain if/else, not elif chains)."""
+
+    def visit_If(self, node: ast.If):
+        self.generic_visit(node)
+        if node.orelse and not (len(node.orelse) == 1 and isinstance(node.orelse[0], ast.If)):
+            test = node.test.operand if isinstance(node.test, ast.UnaryOp) and isinstance(node.test.op, ast.Not) \
+                else ast.UnaryOp(op=ast.Not(), operand=node.test)
+            return ast.copy_location(ast.If(test=test, body=node.orelse, orelse=node.body), node)
+        return node
+
+
+def ifswap(src: str) -> str:
+    tree = IfSwapper().visit(ast.parse(src))
+    ast.fix_missing_locations(tree)
+    return ast.unparse(tree) + '\n'
+
+
 def rewrite_tree(root: Path, mode: str, suffix: str = '_x') -> int:
     """Rewrite every non-test module below root/pydoctor in place: mode 'rename' (local variables) or 'unparse' (reformat)."""
     n = 0
@@ -153,7 +171,7 @@ def rewrite_tree(root: Path, mode: str, suffix: str = '_x') -> int:
             continue
         s = p.read_text()
         try:
-            out = process(s, suffix) if mode == 'rename' else ast.unparse(ast.parse(s)) + '\n'
+            out = process(s, suffix) if mode == 'rename' else ifswap(s) if mode == 'ifswap' else ast.unparse(ast.parse(s)) + '\n'
             compile(out, str(p), 'exec')
         except Exception:
             continue
